@@ -11,6 +11,7 @@ CONTRACTS = {
         params={"graph": OBJ("Graph"), "values": DICT(STR, ANY), "entrypoint": OPT(STR), "selected": ANY, "on_internal_override": STR},
         returns=NONE_T,
         may_raise={"Exception": True},
+        call_site="opaque",  # the postcondition speaks about results of calls made INSIDE the function (ghosts): callers keep the declaration
         # COMPLETENESS of the check: validation passes only when every required input of the effective input spec is supplied,
         # bound, or bypassed by a supplied downstream value (ghosts: the results of the two helper calls of this run)
         ensures=["all(k in values or k in " + SPEC + ".bound or k in _ret_find_bypassed_inputs for k in " + SPEC + ".required)"],
